@@ -114,27 +114,7 @@ pub proof fn lemma_wf_packet_bytes(p: Seq<u8>)
     lemma_rrs_opt(p, r2.0, ar, SecT::Additional, r2.1);
 }
 
-// ---- C05: "left unchanged by a second decompression"
-pub proof fn lemma_exp_pcs_id(v: Seq<u8>, off: int, lowest: int, refs: int, nlen: int)
-    requires pcs_walk(v, off, nlen).is_some(), 0 <= lowest <= off, refs >= 0
-    ensures exp(v, off, v.len() as int, lowest, refs, nlen) == v.subrange(off, pcs_walk(v, off, nlen).unwrap())
-    decreases v.len() - off
-{
-    let b = v[off];
-    lemma_pcs_bounds(v, off, nlen);
-    if b == 0 { assert(v.subrange(off, off + 1) =~= seq![0u8]); }
-    else {
-        lemma_exp_pcs_id(v, off + b + 1, lowest, refs, nlen + b + 1);
-        lemma_pcs_bounds(v, off + b + 1, nlen + b + 1);
-        let e = pcs_walk(v, off, nlen).unwrap();
-        assert(v.subrange(off, off + b + 1) + v.subrange(off + b + 1, e) =~= v.subrange(off, e));
-    }
-}
-pub proof fn lemma_name_exp_id(v: Seq<u8>, off: int)
-    requires pcs_end(v, off).is_some()
-    ensures name_exp(v, off) == v.subrange(off, pcs_end(v, off).unwrap()), name_end(v, off) == pcs_end(v, off)
-{ lemma_exp_pcs_id(v, off, off, 16, 0); lemma_pcs_name_end(v, off); }
-
+// ---- C05: "left unchanged by a second decompression" (name-level lemmas are in spec/pfedit_names.rs)
 pub proof fn lemma_un_rr_id(v: Seq<u8>, off: int)
     requires pf_rr(v, off)
     ensures un_rr(v, off) == v.subrange(off, pf_end(v, off))
